@@ -1637,7 +1637,28 @@ impl TcpProxy {
     pub fn remove_listener(&mut self, address: SocketAddr) -> SessionIsToBeClosed {
         let len = self.listeners.len();
 
-        self.listeners.retain(|_, l| l.borrow().address != address);
+        let registry = &self.registry;
+        self.listeners.retain(|_, l| {
+            let mut listener = l.borrow_mut();
+            if listener.address != address {
+                return true;
+            }
+            // Sessions accepted on this listener keep the listener object alive:
+            // close the listening socket now, otherwise the address keeps
+            // accepting connections nobody will ever serve.
+            if let Some(mut sock) = listener.listener.take() {
+                if let Err(e) = registry.deregister(&mut sock) {
+                    error!(
+                        "{} error deregistering listen socket {:?}: {:?}",
+                        log_module_context!(),
+                        sock,
+                        e
+                    );
+                }
+            }
+            listener.active = false;
+            false
+        });
         self.listeners.len() < len
     }
 
